@@ -178,7 +178,8 @@ def panic_sites(fx, strategies=('default', 'fill')):
 
 def rule_panic_inv(fx, col):
     cx = O.ctx(fx)
-    g, parent, sites, n_inst, n_roots = panic_sites(fx)
+    # all three strategies (the lock based reference strategy has no panic-capable site of its own since fix 9fce248)
+    g, parent, sites, n_inst, n_roots = panic_sites(fx, strategies=('default', 'fill', 'rwlock'))
     if not col.anchor('PANIC-INV', 'API roots', n_roots >= 20, 'found %d' % n_roots):
         return set()
     used = set()
@@ -453,8 +454,11 @@ def rule_writers_raii(fx, col):
         n += 1
         b = s_.body
         if s_.op == 'fetch_add':
-            ok = 'NodeReservation' in b.local_ty(0)
-            why = 'incremented in a function returning the reservation (%s -> %s)' % (b.fname, b.local_ty(0))
+            # ... or, when reserve_writer was written out by hand, where a NodeReservation is built right after it
+            built = [bb for bb in range(b.n) for st in b.stmts(bb) if st['k'] == 'assign' and st['rv']['k'] == 'aggregate' and 'NodeReservation' in (st['rv'].get('adt') or '')]
+            nxt = b.term(s_.bb).get('target')
+            ok = 'NodeReservation' in b.local_ty(0) or (nxt is not None and nxt in built)
+            why = 'incremented where the reservation object is produced (%s -> %s; reservation built in the next block: %s)' % (b.fname, b.local_ty(0), nxt in built if nxt is not None else False)
         else:
             ok = b.name == 'drop' and 'NodeReservation' in (b.j.get('impl_self_ty') or '')
             why = 'decremented in Drop for NodeReservation (here: %s)' % b.fname
